@@ -78,7 +78,7 @@ pub struct Gen {
 }
 
 const BOUNDARY_IDS: [u64; 6] = [0, 1, 9007199254740989, 9007199254740990, 9007199254740991, u64::MAX];
-const RATES: [u64; 6] = [10, 100, 190, 200, 290, 300];
+const RATES: [u64; 10] = [10, 11, 100, 190, 199, 200, 201, 290, 299, 300];
 // out of bounds, including values that look legal once truncated to 8 / 16 / 32 bits
 const BAD_RATES: [u64; 12] = [0, 9, 301, 5000, u64::MAX, 512 + 100, 65_536 + 150, 4_294_967_296 + 10, 4_294_967_296 + 300, 4_294_967_296 * 7 + 200, 1 << 40, u64::MAX - 5];
 const LIFETIMES: [u64; 8] = [600, 600, 601, 900, 3600, 86400, 1209599, 1209600];
@@ -1307,7 +1307,7 @@ impl Gen {
             return;
         }
         self.script_confusable(_o, names);
-        let targets: [u64; 5] = [4990, 5000, 5010, 7500, 3000];
+        let targets: [u64; 8] = [4990, 5000, 5010, 7500, 3000, 4999, 5001, 5000];
         let mut s = *self.rng.pick(&targets);
         let max_n = names.colls.len();
         let mut rates: Vec<u64> = vec![];
